@@ -12,11 +12,22 @@ var verifC03 struct {
 	admitted []promisedRec
 	autoSink bool // complete each admitted record from its own goroutine
 	sinkErr  error
+	overRecs bool // an admission left bufferedRecords above the limit
+	overByte bool // an admission left bufferedBytes above the limit
 }
 
 //verif:replace (*Client).loadPartsAndPartition
 func (cl *Client) verifC03LoadPartsAndPartition(pr promisedRec) {
 	verifC03.admitted = append(verifC03.admitted, pr)
+	p := &cl.producer
+	p.mu.Lock()
+	if p.bufferedRecords > cl.cfg.maxBufferedRecords {
+		verifC03.overRecs = true
+	}
+	if cl.cfg.maxBufferedBytes > 0 && p.bufferedBytes > cl.cfg.maxBufferedBytes {
+		verifC03.overByte = true
+	}
+	p.mu.Unlock()
 	if verifC03.autoSink {
 		go cl.producer.promiseBatch(batchPromise{recs: []promisedRec{pr}, err: verifC03.sinkErr})
 	}
@@ -35,6 +46,7 @@ func verifC03Client(maxRecs, maxBytes int64) *Client {
 	verifC03.admitted = nil
 	verifC03.autoSink = false
 	verifC03.sinkErr = nil
+	verifC03.overRecs, verifC03.overByte = false, false
 	return cl
 }
 
@@ -103,7 +115,15 @@ func VerifC03_finishAccounting() {
 	p.blocked.Store(blocked)
 	p.flushing.Store(flushing)
 	calls := 0
-	pr := promisedRec{context.Background(), func(*Record, error) { calls++ }, &Record{Value: make([]byte, size)}}
+	// the promise may recycle the record's buffers (documented as allowed): sizes must be
+	// captured before it runs
+	recycle := verifNondetBool("promiseRecyclesRecord")
+	pr := promisedRec{context.Background(), func(r *Record, _ error) {
+		calls++
+		if recycle {
+			r.Value, r.Key, r.Headers = nil, nil, nil
+		}
+	}, &Record{Value: make([]byte, size)}}
 	before := verifNondetBool("beforeBuf")
 	bc := cl.finishRecordPromise(pr, nil, before)
 	verifAssert(calls == 1, "promise called exactly once")
@@ -169,4 +189,74 @@ func VerifC03_blockFlushSchedules() {
 	verifAssert(verifBlockedCount() == 0, "no goroutine is left blocked")
 	cancel2()
 	verifReached("c03-block-flush")
+}
+
+// (d) Both limits at once: two Produces block on the record limit; when a batch of two small
+// records completes, the byte limit admits only one of the large waiting records at a time.
+func VerifC03_bothLimitsSchedules() {
+	delays := 1
+	if verifThorough() {
+		delays = 3
+	}
+	verifPreemptions(delays)
+	cl := verifC03Client(2, 100)
+	calls := make([]int, 4)
+	mk := func(i, n int) (*Record, func(*Record, error)) {
+		return &Record{Topic: "t", Value: make([]byte, n)}, func(*Record, error) { calls[i]++ }
+	}
+	for i := 0; i < 2; i++ {
+		r, pf := mk(i, 10)
+		cl.produce(context.Background(), r, pf, true)
+	}
+	verifAssert(len(verifC03.admitted) == 2, "two small records admitted up to the record limit")
+	first := append([]promisedRec(nil), verifC03.admitted...)
+	verifC03.autoSink = true
+	done := 0
+	for i := 2; i < 4; i++ {
+		r, pf := mk(i, 60)
+		go func() {
+			cl.produce(context.Background(), r, pf, true)
+			done++
+		}()
+	}
+	// the sink acknowledges the first two records as one batch
+	go cl.producer.promiseBatch(batchPromise{recs: first})
+	verifRunAll()
+	verifAssert(!verifC03.overRecs, "no admission ever leaves more records buffered than MaxBufferedRecords")
+	verifAssert(!verifC03.overByte, "no admission ever leaves more bytes buffered than MaxBufferedBytes")
+	verifAssert(done == 2, "both blocked Produces are eventually admitted")
+	ok := true
+	for _, c := range calls {
+		ok = ok && c == 1
+	}
+	verifAssert(ok, "every record's promise runs exactly once")
+	verifAssert(cl.producer.bufferedRecords == 0 && cl.producer.bufferedBytes == 0 && cl.producer.blocked.Load() == 0 && cl.producer.blockedBytes == 0, "all accounting returns to zero")
+	verifAssert(verifBlockedCount() == 0, "no goroutine is left blocked")
+	verifReached("c03-both-limits")
+}
+
+// (e) Boundary: a record of exactly MaxBufferedBytes that has to wait is admitted as soon as
+// the buffer is empty (the waiting predicate and the admission predicate agree at equality).
+func VerifC03_exactFitBlocked() {
+	verifPreemptions(1)
+	size := 1 + verifChoose(2)
+	cl := verifC03Client(5, int64(size))
+	calls := make([]int, 2)
+	cl.produce(context.Background(), &Record{Topic: "t", Value: make([]byte, 1)}, func(*Record, error) { calls[0]++ }, true)
+	verifAssert(len(verifC03.admitted) == 1, "first record admitted")
+	first := verifC03.admitted[0]
+	verifC03.autoSink = true
+	done := false
+	go func() {
+		cl.produce(context.Background(), &Record{Topic: "t", Value: make([]byte, size)}, func(*Record, error) { calls[1]++ }, true)
+		done = true
+	}()
+	go cl.producer.promiseBatch(batchPromise{recs: []promisedRec{first}})
+	verifRunAll()
+	verifAssert(done, "a blocked record that exactly fits MaxBufferedBytes is admitted once the buffer drains")
+	verifAssert(calls[0] == 1 && calls[1] == 1, "both promises run exactly once")
+	verifAssert(!verifC03.overByte, "the byte limit is never exceeded")
+	verifAssert(cl.producer.bufferedBytes == 0 && cl.producer.blocked.Load() == 0, "accounting returns to zero")
+	verifAssert(verifBlockedCount() == 0, "no goroutine is left blocked")
+	verifReached("c03-exact-fit")
 }
